@@ -33,6 +33,18 @@ def gen_rule(rng, items, idgen, depth=1, p_id=0.4):
     if k in ("ccAny", "ccXor"):
         r = {"k": k, "id": vid, "args": [V(i) for i in its]}
         t = rng.random()
+        if depth > 0 and rng.random() < 0.2:
+            # alternatives that are small rules themselves (often exactly two alternatives, with or without a default among the plain ones)
+            if rng.random() < 0.6:
+                its = its[:2]
+                r["args"] = r["args"][:2]
+            for j in rng.sample(range(len(its)), rng.randint(1, len(its))):
+                pair = rng.sample(items, 2)
+                r["args"][j] = {"k": rng.choice(["All", "Any"]), "id": idgen() if rng.random() < 0.5 else None, "args": [V(x) for x in pair]}
+            plain = [a["id"] for a in r["args"] if a["k"] == "var"]
+            if plain and t < 0.5:
+                r["default"] = [rng.choice(plain)]
+            return r
         if t < 0.8:
             r["default"] = [rng.choice(its)]
             if k == "ccAny" and len(its) >= 3 and rng.random() < 0.25:
@@ -41,6 +53,10 @@ def gen_rule(rng, items, idgen, depth=1, p_id=0.4):
             others = [i for i in items if i not in its]
             if others:
                 r["default"] = [rng.choice(others)]      # a default that is not among the alternatives: kept, but without effect
+        if rng.random() < 0.2:
+            r["via"] = "from_list"                       # the alternative constructor (takes the default too)
+        if r.get("default") and rng.random() < 0.15:
+            r["default_form"] = "var"
         return r
     if k == "AtMost":
         return {"k": "AtMost", "id": vid, "args": [V(i) for i in its], "value": rng.randint(1, 2)}
@@ -72,7 +88,10 @@ def gen_config(rng, nitems=None, nrules=None, cid=True):
             continue
         seen.add(key)
         rules.append(r)
-    return {"k": "Stingy", "id": ("main" if cid else None), "args": rules}
+    rec = {"k": "Stingy", "id": ("main" if cid else None), "args": rules}
+    if rng.random() < 0.25:
+        rec["prequery"] = rng.choice(["flatten", "leafs", "default_prios", "ge_polyhedron", "variables", "to_text", "errors"])
+    return rec
 
 
 def enumerate_feasible(A, b, ncols, bounds=None, limit=1 << 17):
